@@ -143,6 +143,8 @@ func (r *c20run) scenario(x *vs.X) func(end, msg string) error {
 	r.calls, r.samples, r.res, r.shotsBy = nil, nil, DriveRes{}, map[int][]string{}
 	var conf map[string]any
 	switch c.Mode {
+	case "scodes":
+		conf = map[string]any{"type": "grpc/scenario", "file": "/gsc19.yaml", "limit": c.Shots}
 	case "scenario":
 		conf = map[string]any{"type": "grpc/scenario", "file": "/gsc20.yaml", "limit": c.Shots}
 	default:
@@ -168,7 +170,7 @@ func (r *c20run) scenario(x *vs.X) func(end, msg string) error {
 	}
 	t0 := time.Now()
 	ch := recChannel{t0: t0, calls: &r.calls}
-	if c.Mode == "codes" {
+	if c.Mode == "codes" || c.Mode == "scodes" {
 		ch.answer = func(n int, method string) error {
 			code := c.Codes[(n-1)%len(c.Codes)]
 			switch {
@@ -186,7 +188,7 @@ func (r *c20run) scenario(x *vs.X) func(end, msg string) error {
 	var guns []gunLike
 	for i := 0; i < c.Instances; i++ {
 		deps := core.GunDeps{Ctx: context.Background(), Log: nop, PoolID: "p", InstanceID: i}
-		if c.Mode == "scenario" {
+		if c.Mode == "scenario" || c.Mode == "scodes" {
 			g := grpcscenario.NewGun(grpcscenario.GunConfig{Target: "t", Timeout: timeout})
 			grpcscenario.ZvBind(g, gAgg{&r.samples}, deps, grpcdynamic.NewStub(ch), services)
 			guns = append(guns, g)
@@ -243,9 +245,56 @@ func (r *c20run) scenario(x *vs.X) func(end, msg string) error {
 			return r.checkScenario()
 		case "codes":
 			return r.checkCodes()
+		case "scodes":
+			return r.checkScenarioCodes()
 		}
 		return nil
 	}
+}
+
+const c19grpcScenarioYAML = `calls:
+  - name: c1
+    tag: hello
+    call: target.TargetService.Hello
+    metadata: {k: v}
+    payload: '{"name": "n"}'
+    postprocessors:
+      - type: assert/response
+        payload: [hello]
+      - type: assert/response
+        status_code: 200
+  - name: c2
+    tag: list
+    call: target.TargetService.List
+    payload: '{"token": "{{.request.c1.postprocessor.hello}}", "user_id": 1}'
+    postprocessors:
+      - type: assert/response
+        payload: [result, item_id]
+scenarios:
+  - name: s1
+    requests: [c1, c2]
+`
+
+// checkScenarioCodes: whatever the calls are answered with, every shot is made, every executed
+// call gives exactly one sample, and a failing call stops only its own shot.
+func (r *c20run) checkScenarioCodes() error {
+	c := r.cell
+	if r.res.Shots != c.Shots {
+		return fmt.Errorf("STOPPED: %d of %d shots made", r.res.Shots, c.Shots)
+	}
+	if len(r.samples) != len(r.calls) {
+		return fmt.Errorf("SAMPLES: %d calls on the channel, %d samples", len(r.calls), len(r.samples))
+	}
+	hello := 0
+	for _, g := range r.calls {
+		if g.Method == "/target.TargetService/Hello" {
+			hello++
+		}
+	}
+	if hello != c.Shots {
+		return fmt.Errorf("STOPPED: %d shots started with their first call, %d expected", hello, c.Shots)
+	}
+	return nil
 }
 
 func (r *c20run) wantTimeout() time.Duration {
@@ -525,6 +574,9 @@ func c20cells(thorough bool) []C20Cell {
 				out = append(out, C20Cell{Mode: "codes", Entries: []Entry{good[1], good[5]}, Instances: 1, Codes: []int{a, b, 0}})
 			}
 		}
+		// the gRPC scenario gun with payload and status assertions on answers that carry no message
+		out = append(out, C20Cell{Mode: "scodes", Instances: 1, Shots: 3, Codes: []int{a, 0, 0, a}})
+		out = append(out, C20Cell{Mode: "scodes", Instances: 1, Shots: 3, Codes: []int{0, a, a, 0}})
 	}
 	return out
 }
@@ -570,6 +622,7 @@ func reflectionTier(out *hutil.Out) {
 
 func runC20(t interface{ Fatal(...any) }, spec *hutil.Spec, out *hutil.Out, e *vs.Explorer) {
 	_ = afero.WriteFile(memfs, "/gsc20.yaml", []byte(c20scenarioYAML), 0o644)
+	_ = afero.WriteFile(memfs, "/gsc19.yaml", []byte(c19grpcScenarioYAML), 0o644)
 	if spec.Worker == 0 && spec.Replay == nil {
 		reflectionTier(out)
 	}
@@ -577,7 +630,10 @@ func runC20(t interface{ Fatal(...any) }, spec *hutil.Spec, out *hutil.Out, e *v
 		if !spec.Mine(ci) || (spec.Only != "" && !strings.Contains(c.Name(), spec.Only)) {
 			continue
 		}
-		if spec.Property == "C19" && c.Mode != "codes" {
+		if spec.Property == "C20" && c.Mode == "scodes" {
+			continue
+		}
+		if spec.Property == "C19" && c.Mode != "codes" && c.Mode != "scodes" {
 			continue
 		}
 		if out.OverBudget() {
